@@ -319,7 +319,8 @@ Moved(S, e) ==
 MoveBound(S, e) ==
     LET n == Len(BufSeq(S, e.h)) IN
     CASE e.op = "remove" -> IF e.i < n THEN n - e.i ELSE 0
-      [] e.op = "make_contiguous" -> IF HasBuf(S, e.h) /\ S.bufs[e.h].split = n THEN 0 ELSE Top
+      [] e.op = "make_contiguous" \/ (e.op = "write_via" /\ e.acc = "make_contiguous") ->
+            IF HasBuf(S, e.h) /\ S.bufs[e.h].split = n THEN 0 ELSE Top
       [] e.op \in {"fill", "fill_with", "fill_spare", "fill_spare_with", "extend", "extend_from_slice",
                    "clone_from"} -> Top
       [] e.op = "v_drop" -> IF HasView(S, e.v) /\ S.views[e.v].kind = "drain"
@@ -470,7 +471,8 @@ ObserveFail(S, e) ==
 AccessFail(S, e) ==
     \* a reference returned by an accessor points at the element's own slot
     IF e.op \in GetOps \cup {"write_via"} /\ e.ret.k = "some" /\ Len(e.ret.slots) = 1
-    THEN Chk(e.ret.slots[1] = SlotOfId(S, e.h, e.ret.ids[1]), "C07", "address")
+    THEN Chk(e.ret.slots[1] = (IF e.post.obs /\ e.ret.ids[1] \in Range(e.post.seq)
+                               THEN SlotIn(e.post.seq, e.post.slots, e.ret.ids[1]) ELSE SlotOfId(S, e.h, e.ret.ids[1])), "C07", "address")
     ELSE IF e.op \in {"as_slices", "as_mut_slices", "make_contiguous"} /\ e.ret.k \in {"slices", "ids"} /\ e.post.obs
     THEN Chk(e.ret.slots = e.post.slots, "C07", "address")
       \cup Chk(e.op # "make_contiguous" \/ e.post.split = e.post.len, "C07", "not_contiguous_after_make_contiguous")
